@@ -163,3 +163,59 @@ func ZZ_C06_NameReuseAfterRevert() {
 	zzWellFormed("C06.reuse", r2)
 	zzReach("C06.reuse.done")
 }
+
+// C06 (what a reverted replica serves after the next restart or reload): through the
+// server - the way the REST revert arrives - revert to snapshot a, then either reload,
+// crash and reopen, or close cleanly and reopen: every time the volume reads exactly the
+// image snapshot a holds, and the directory opens.
+func ZZ_C06_RevertThenRestart() {
+	fs := zzInstallFS()
+	ActionChannel = make(chan string, 5)
+	r, err := zzOpenReplica()
+	zzAssume(err == nil)
+	r.mode = types.RW
+	s := &Server{Dir: zzDir, defaultSectorSize: 4096, MonitorChannel: make(chan struct{}), r: r}
+	write := func(blk int, tag byte) {
+		buf := make([]byte, 4096)
+		buf[0], buf[4095] = tag, tag
+		_, werr := s.WriteAt(buf, int64(blk)*4096)
+		zzAssume(werr == nil)
+	}
+	write(0, 'A')
+	zzAssume(s.Snapshot("a", true, "t") == nil)
+	write(1, 'B')
+	if zzNondetBool("second-snapshot") {
+		zzAssume(s.Snapshot("b", zzNondetBool("user.b"), "t") == nil)
+		write(0, 'C')
+	}
+	zzAssume(s.Revert("volume-snap-a.img", "t") == nil)
+	live := s
+	switch zzConcretize(zzChoice("then", 4)) {
+	case 0:
+		zzReach("C06.revert-restart.reload")
+		zzAssert(s.Reload() == nil, "C06.revert-restart.reload-after-revert-failed")
+	case 1:
+		zzReach("C06.revert-restart.crash")
+		fs.Revive()
+		live = &Server{Dir: zzDir, defaultSectorSize: 4096, MonitorChannel: make(chan struct{})}
+		zzAssert(live.Open() == nil, "C06.revert-restart.reopen-after-revert-and-crash-failed")
+	case 2:
+		zzReach("C06.revert-restart.clean")
+		zzAssume(s.Close() == nil)
+		fs.Revive()
+		live = &Server{Dir: zzDir, defaultSectorSize: 4096, MonitorChannel: make(chan struct{})}
+		zzAssert(live.Open() == nil, "C06.revert-restart.reopen-after-revert-and-close-failed")
+	default:
+		zzReach("C06.revert-restart.stay")
+	}
+	if live.r == nil {
+		return
+	}
+	rb := make([]byte, 2*4096)
+	_, rerr := live.ReadAt(rb, 0)
+	zzAssert(rerr == nil, "C06.revert-restart.read-failed")
+	zzAssert(rb[0] == 'A' && rb[4096] == 0, "C06.revert-restart.volume-does-not-read-the-snapshot's-image")
+	ch, cerr := live.r.Chain()
+	zzAssert(cerr == nil && len(ch) == 2 && ch[1] == "volume-snap-a.img", "C06.revert-restart.chain-is-not-head-over-the-snapshot")
+	zzReach("C06.revert-restart.done")
+}
